@@ -475,7 +475,7 @@ class _function(object):
         elif type(other) is not _function:
             return NotImplemented
 
-        if 1 != len(self) != len(other) != 1: 
+        if 1 != len(self) != _vlen(other) != 1: 
             raise ValueError('incompatible lengths')
 
         f = _function()
@@ -521,11 +521,11 @@ class _function(object):
         elif type(other) is not _function:
             return NotImplemented
 
-        if len(self) != len(other) != 1: 
+        if len(self) != _vlen(other) != 1: 
             raise ValueError('incompatible lengths')
 
         if _ismatrix(other):
-            if 1 == len(self._constant) != len(other): 
+            if 1 == len(self._constant) != _vlen(other): 
                 self._constant = self._constant + other
             else:
                 self._constant += other
@@ -565,7 +565,7 @@ class _function(object):
         elif type(other) is not _function:
             return NotImplemented
 
-        if 1 != len(self) != len(other) != 1: 
+        if 1 != len(self) != _vlen(other) != 1: 
             raise ValueError('incompatible lengths')
 
         f = _function()
@@ -605,7 +605,7 @@ class _function(object):
         elif type(other) is not _function:
             return NotImplemented
 
-        if 1 != len(self) != len(other) != 1: 
+        if 1 != len(self) != _vlen(other) != 1: 
             raise ValueError('incompatible lengths')
 
         f = _function()
@@ -645,11 +645,11 @@ class _function(object):
         elif type(other) is not _function:
             return NotImplemented
 
-        if len(self) != len(other) != 1: 
+        if len(self) != _vlen(other) != 1: 
             raise ValueError('incompatible lengths')
 
         if _ismatrix(other):
-            if 1 == len(self._constant) != len(other): 
+            if 1 == len(self._constant) != _vlen(other): 
                 self._constant = self._constant - other
             else:
                 self._constant -= other
@@ -3106,6 +3106,18 @@ def _isscalar(a):
         a.size == (1,1)): return True
     else: return False
 
+
+
+def _vlen(a):
+
+    """ 
+    Length of a term in a sum: the number of rows of a (dense or 
+    sparse) matrix with one column, len(a) for variables and functions.
+    (len() of a sparse matrix is its number of nonzero entries.)
+    """
+
+    if type(a) in (matrix, spmatrix): return a.size[0]
+    else: return len(a)
 
 
 def _isdmatrix(a):   
